@@ -97,6 +97,7 @@ type exec struct {
 	suppress bool              // inside stored closures: implicit-panic obligations are not generated
 	sliceElem map[string]string // slice-valued heap array → element heap array
 	mapField  map[string]*types.Map
+	file      *ast.File // file declaring the function under proof (import aliases are per file)
 }
 
 func (x *exec) note(f string, a ...interface{}) { x.notes[fmt.Sprintf(f, a...)] = true }
@@ -225,7 +226,7 @@ func (x *exec) claims(k string) bool {
 	if k != "nopanic" && k != "nil" && k != "overflow" && x.con.Claims["nopanic"] {
 		// nopanic implies the individual panic kinds (not nil derefs / overflow)
 		switch k {
-		case "bounds", "slice", "div", "typeassert", "make", "nilmap", "panic", "shift", "conv":
+		case "bounds", "slice", "div", "typeassert", "make", "nilmap", "panic", "shift":
 			return true
 		}
 	}
@@ -1080,7 +1081,28 @@ func (x *exec) makeSlice(fr *frame, i *ssa.MakeSlice, s *State) {
 		if sz < 1 {
 			sz = 1
 		}
-		x.oblig(fr, s, "alloc", x.srcText(i.Pos(), "make"), i.Pos(), And(x.c.ICmp("<=", z, cp), x.c.ICmp("<=", cp, x.c.ILit((64<<20)/sz))), nil)
+		if x.con != nil && len(x.con.AllocBound) > 0 && fr.top {
+			// declared limit: bytes allocated from a wire-supplied size stay within the bound expression
+			for _, ab := range x.con.AllocBound {
+				env := x.frameEnv(fr, s, i.Pos())
+				pnames := x.con.Params
+				if x.con.Recv != "" {
+					pnames = append([]string{x.con.Recv}, pnames...)
+				}
+				for k, n := range pnames {
+					if k < len(fr.params) {
+						if _, taken := env.vars[n]; !taken && env.cell(n) == nil {
+							env.vars[n] = fr.params[k]
+						}
+					}
+				}
+				bv := x.eval(ab.E, env, types.Typ[types.Int])
+				bound := x.c.Convert(x.term(bv), bv.Typ, types.Typ[types.Int])
+				x.oblig(fr, s, "alloc", x.srcText(i.Pos(), "make"), i.Pos(), And(x.c.ICmp("<=", z, cp), x.c.ICmp("<=", x.c.IMul(cp, x.c.ILit(sz)), bound), x.c.ICmp("<=", cp, x.c.ILit(1<<40))), nil)
+			}
+		} else {
+			x.oblig(fr, s, "alloc", x.srcText(i.Pos(), "make"), i.Pos(), And(x.c.ICmp("<=", z, cp), x.c.ICmp("<=", cp, x.c.ILit((64<<20)/sz))), nil)
+		}
 	}
 	ref := x.newRef(s, "mk")
 	name, sortN := x.elemArr(et)
